@@ -5,6 +5,7 @@ import TongoProofs.Lemmas.TlbChain
 import TongoProofs.Lemmas.TlbOpBody
 import TongoProofs.Lemmas.TlbBitsRefine
 import TongoProofs.Lemmas.TlbNoPanic
+import TongoProofs.Lemmas.TlbDictOrder
 import TongoGen.TlbTypes
 import TongoGen.AbiOpcodes
 import TongoGen.IntTypes
@@ -363,6 +364,33 @@ theorem CodecOK_hashmapE (env : Env) (hEnv : EnvWF env) (k t : Ty) (hw : wfb env
       ∀ s : Slice, s.isLibrary = false → decode env fuel (.dictE k t) (s.prepend xs rs) = .ok (v, s) := by
   obtain ⟨xs, rs, hb, _, hng⟩ := decode_encode_inline env hEnv (.dictE k t) hw fuel v hd b b' he
   exact ⟨xs, rs, hb, hng ⟨1, rfl⟩⟩
+
+/-- **CodecOK_hashmapE_anyorder** — the listing order of the entries does not matter to the encoder, and the decoder
+returns them sorted: for a `HashmapE[K, V]` value whose keys are pairwise distinct but listed in ANY order
+(`inDomDictU`: a map filled by `Put` with a signed key type lists them in numeric order, a map built from slices in
+any order), `decode (encode v) = sortDictVal v` — the same entries in ascending order of the encoded key bits (C05's
+`sortKV`; `Hashmap.marshal` sorts first). `inDom` (hence `decode_encode`) covers only the values that are already
+listed in that order, for which `sortDictVal v = v`. -/
+theorem CodecOK_hashmapE_anyorder (env : Env) (hEnv : EnvWF env) (k t : Ty) (hw : wfb env (.dictE k t) = true)
+    (fuel : Nat) (v : Val) (hd : inDomDictU env fuel k t v = true) (b b' : Builder)
+    (he : encode env (fuel + 1) (.dictE k t) v b = .ok b') :
+    ∃ v', sortDictVal (fun x => encode env fuel k x Builder.empty) v = some v' ∧
+      ∃ xs rs, b' = b.app xs rs ∧
+        ∀ s : Slice, s.isLibrary = false → decode env (fuel + 1) (.dictE k t) (s.prepend xs rs) = .ok (v', s) := by
+  obtain ⟨v', hs, hdom, henc⟩ := dictE_anyorder (env := env) (f := fuel) k t v hd
+  rw [← henc b] at he
+  exact ⟨v', hs, CodecOK_hashmapE env hEnv k t hw (fuel + 1) v' hdom b b' he⟩
+
+/-- the any-order domain is inhabited and the sorted value differs (TEST on literals): int8 keys 1, -1 listed in
+numeric order -1, 1 — the bit order is 1 (0x01), -1 (0xff) -/
+example :
+    let v := Val.list [Val.list [.int (-1), .int 1], Val.list [.int 10, .int 20]]
+    inDomDictU (fun _ => none) 3 (.int 8) (.uint 8) v = true ∧
+    inDom (fun _ => none) 4 (.dictE (.int 8) (.uint 8)) v = false ∧
+    sortDictVal (fun x => encode (fun _ => none) 3 (.int 8) x Builder.empty) v
+      = some (Val.list [Val.list [.int 1, .int (-1)], Val.list [.int 20, .int 10]]) := by
+  intro v
+  exact ⟨by decide, by decide, by rfl⟩
 
 /-- **CodecOK_hashmap**: `tlb.Hashmap[K, V]` (the root edge written into the current cell, never empty) as the
 content of a cell: the round trip of C05 again, the decoder ignoring the type of the cell it reads from as long as
